@@ -165,7 +165,7 @@ fn permutations(n: usize) -> Vec<Vec<usize>> {
 }
 
 pub fn generate(rng: &mut Rng, tier: &str) -> Case {
-    let template = *rng.pick(catalogue::TEMPLATES);
+    let template = *rng.pick(&catalogue::drawable());
     let mut program = if rng.chance(2, 5) {
         // a seeded random program (DAG of entities spread over files and modules), sometimes with an injected error
         let inject = match rng.below(9) {
@@ -182,7 +182,7 @@ pub fn generate(rng: &mut Rng, tier: &str) -> Case {
     // composite programs: two templates side by side (their modules differ), at most 4 files kept in total so that
     // all permutations stay affordable; state that leaks from one file's processing into another's has more to hit
     if rng.chance(1, 3) && program.files.len() <= 3 {
-        let other = catalogue::instantiate(*rng.pick(catalogue::TEMPLATES), rng);
+        let other = catalogue::instantiate(*rng.pick(&catalogue::drawable()), rng);
         for f in other.files.into_iter() {
             if program.files.len() >= 4 {
                 break;
